@@ -21,11 +21,14 @@ type c15Case struct {
 	Arg    []*hx.Spec `json:"arg,omitempty"`   // concat: second array
 	Sep    *string    `json:"sep,omitempty"`   // join separator
 	Chain  []string   `json:"chain,omitempty"` // further argument-less filters
+	Cap    int        `json:"cap,omitempty"`   // spare capacity of the bound slices
+	Twice  bool       `json:"twice,omitempty"` // apply the filter a second time (with another argument) before looking at the first result
 }
 
 // realise the array in the requested representation; ok=false if it cannot take it
 func c15Realise(elems []*hx.Spec, rep string) (any, bool) {
 	a := hx.SArr(elems...)
+	a.Cap = c15Cap
 	switch rep {
 	case "":
 		return a.Realise(), true
@@ -45,11 +48,13 @@ func c15Realise(elems []*hx.Spec, rep string) (any, bool) {
 	return nil, false
 }
 
+// c15Cap is the spare capacity given to the slices of the case being evaluated.
+var c15Cap int
+
 func c15Print(m *hx.Model, v any) string {
 	if mr, ok := v.(*hx.MapRef); ok {
 		id, _ := m.Print(mr.M["id"])
-		k, _ := m.Print(mr.M["k"])
-		return "{" + id + ":" + k + "}"
+		return "{" + id + "}"
 	}
 	s, st := m.Print(v)
 	if st != hx.StOK {
@@ -58,7 +63,7 @@ func c15Print(m *hx.Model, v any) string {
 	return s
 }
 
-const c15Elem = `{% if x.id %}{{ "{" }}{{ x.id }}:{{ x.k }}{{ "}" }}{% else %}{{ x }}{% endif %}`
+const c15Elem = `{% if x.id %}{{ "{" }}{{ x.id }}{{ "}" }}{% else %}{{ x }}{% endif %}`
 
 func c15List(name string) string {
 	return "{% for x in " + name + " %}[" + c15Elem + "]{% endfor %}"
@@ -73,6 +78,7 @@ func c15Expect(m *hx.Model, items []any) string {
 }
 
 var c15Apply = hx.Define("c15.apply", func(c *c15Case, s *hx.Sub) *hx.Violation {
+	c15Cap = c.Cap
 	in, ok := c15Realise(c.Elems, c.Rep)
 	if !ok {
 		return hx.V("harness-error", "array cannot take representation %q", c.Rep)
@@ -106,6 +112,14 @@ var c15Apply = hx.Define("c15.apply", func(c *c15Case, s *hx.Sub) *hx.Violation 
 	var src string
 	if scalar {
 		src = "{% assign x = a | " + fexpr + " %}" + c15Elem + "|" + c15List("a")
+	} else if c.Twice {
+		// the first result must not change when the same input goes through the filter again
+		again := fexpr
+		if name == "concat" {
+			binds["b2"] = []any{"zz", "yy", "xx", "ww"}
+			again = strings.Replace(fexpr, "concat: b", "concat: b2", 1)
+		}
+		src = "{% assign r = a | " + fexpr + " %}{% assign r2 = a | " + again + " %}" + c15List("r") + "|" + c15List("a")
 	} else {
 		src = "{% assign r = a | " + fexpr + " %}" + c15List("r") + "|" + c15List("a")
 	}
@@ -288,19 +302,22 @@ var c15Alphabets = [][]*hx.Spec{
 
 var c15Filters = []string{"sort", "reverse", "uniq", "compact", "first", "last", "size", "join", "concat"}
 
-func c15Records(t *rapid.T, n int) []*hx.Spec {
+func c15Records(t *rapid.T, n int, key string) []*hx.Spec {
 	var out []*hx.Spec
 	for i := 0; i < n; i++ {
 		rec := hx.SMap("id", hx.SInt(int64(i+1)))
+		for j, extra := 0, rapid.IntRange(0, 3).Draw(t, "extra"); j < extra; j++ {
+			rec.Keys, rec.E = append(rec.Keys, fmt.Sprintf("x%d", j)), append(rec.E, hx.SInt(int64(j)))
+		}
 		switch rapid.IntRange(0, 5).Draw(t, "kk") {
 		case 0: // absent
 		case 1:
-			rec.Keys, rec.E = append(rec.Keys, "k"), append(rec.E, hx.SNil())
+			rec.Keys, rec.E = append(rec.Keys, key), append(rec.E, hx.SNil())
 		default:
 			if rapid.Bool().Draw(t, "kstr") {
-				rec.Keys, rec.E = append(rec.Keys, "k"), append(rec.E, hx.SStr(rapid.SampledFrom([]string{"a", "b", "c"}).Draw(t, "ks")))
+				rec.Keys, rec.E = append(rec.Keys, key), append(rec.E, hx.SStr(rapid.SampledFrom([]string{"a", "b", "c"}).Draw(t, "ks")))
 			} else {
-				rec.Keys, rec.E = append(rec.Keys, "k"), append(rec.E, hx.SInt(int64(rapid.IntRange(0, 3).Draw(t, "ki"))))
+				rec.Keys, rec.E = append(rec.Keys, key), append(rec.E, hx.SInt(int64(rapid.IntRange(0, 3).Draw(t, "ki"))))
 			}
 		}
 		out = append(out, rec)
@@ -330,7 +347,7 @@ func TestC15(t *testing.T) {
 					if !env.Mine(idx) {
 						continue
 					}
-					c := &c15Case{Elems: append([]*hx.Spec{}, cur...), Rep: rep, Filter: f}
+					c := &c15Case{Elems: append([]*hx.Spec{}, cur...), Rep: rep, Filter: f, Cap: idx % 4, Twice: idx%8 >= 4}
 					if f == "concat" {
 						c.Arg = []*hx.Spec{al[0], al[len(al)-1]}
 					}
@@ -357,8 +374,11 @@ func TestC15(t *testing.T) {
 	col.Rapid(app.Sub, env.PerShard(env.Pick(30000, 1000000)), func(t *rapid.T) {
 		c := &c15Case{}
 		if rapid.IntRange(0, 3).Draw(t, "records") == 0 {
-			c.Elems = c15Records(t, rapid.IntRange(0, 6).Draw(t, "n"))
-			c.Filter = rapid.SampledFrom([]string{"sort:k", "map:k", "map:id", "sort:id", "reverse", "first", "last", "size", "uniq", "compact"}).Draw(t, "rf")
+			// key names that collide with the special properties size/first/last matter: an entry lacking
+			// the key lacks it, whatever a property lookup on the map would say
+			key := rapid.SampledFrom([]string{"k", "k", "size", "first", "last"}).Draw(t, "keyname")
+			c.Elems = c15Records(t, rapid.IntRange(0, 6).Draw(t, "n"), key)
+			c.Filter = rapid.SampledFrom([]string{"sort:" + key, "sort:" + key, "map:" + key, "map:id", "sort:id", "reverse", "first", "last", "size", "uniq", "compact"}).Draw(t, "rf")
 			var fit []string
 			for _, r := range []string{"", "typed", "array", "mapslice"} {
 				if _, ok := c15Realise(c.Elems, r); ok {
@@ -403,6 +423,8 @@ func TestC15(t *testing.T) {
 			}
 			c.Rep = rapid.SampledFrom(fit).Draw(t, "rep")
 		}
+		c.Cap = rapid.IntRange(0, 4).Draw(t, "cap")
+		c.Twice = rapid.IntRange(0, 3).Draw(t, "twice") == 0
 		if v := app.Run(c); v != nil {
 			t.Fatalf("%s", v.Message)
 		}
